@@ -166,7 +166,10 @@ def apply_edit(texts, edit):
 
 
 def synth_entity(rng, k, package_id):
-    '''rows of one extra external entity whose three to five bridges each return their own constant'''
+    '''
+    rows of one extra external entity whose three to five bridges each return their own constant (drawn per run:
+    equally named bridges of other entities, and of the models of earlier runs, return other constants)
+    '''
     def uid():
         return '"%s"' % uuid.UUID(int=rng.getrandbits(128), version=4)
     ee = uid()
@@ -176,7 +179,7 @@ def synth_entity(rng, k, package_id):
     brgs = []
     for j in range(rng.randint(3, 5)):
         brgs.append("INSERT INTO S_BRG\n\tVALUES (%s,\n\t%s,\n\t'b%d',\n\t'',\n\t0,\n\t%s,\n\t'return %d;',\n\t1,\n\t'',\n\t0);"
-                    % (uid(), ee, j, integer, 100 * (k + 1) + j))
+                    % (uid(), ee, j, integer, rng.randint(1, 999999)))
     rng.shuffle(brgs)
     return rows + brgs
 
